@@ -103,9 +103,77 @@ def gen_wake_case(rng):
     return "vsock " + " ".join(str(x) for x in cfg) + " " + " ".join(ops)
 
 
+def gen_idle_after_history(rngs):
+    """Closed loop: a send history (plain, RTO expiries with the rewind of last_sent_seq_nr, partial ACKs,
+    SACK-driven fast retransmit, MTU probe failure), then ONE cumulative ACK of everything that was ever
+    numbered (read back from the implementation's fingerprint), then the application event on the now idle
+    connection (shutdown / drop / write) followed by a poll at the same clock.  D20 lived here."""
+    cases = []
+    for rng in rngs:
+        cfg = vsockgen.gen_config(rng, kind="out")
+        cfg[2] = rng.choice([1500, 1500, 1280, 9000])
+        cfg[4] = rng.choice([4096, 32768])
+        cfg[5] = max(cfg[5], cfg[4])
+        cfg[7] = 5
+        cfg[8] = 60_000_000_000
+        cfg[14] = 1048576
+        isn = cfg[11]
+        st = {"ts": 1, "now": cfg[16], "w": 0}
+        ops = ["P"]
+
+        def ack(nr, sack="-"):
+            st["ts"] += rng.range(1, 5000)
+            return f"M2,{cfg[12]},{nr % 65536},1048576,{st['ts']},0,0,{sack}"
+
+        def write(n):
+            ops.append(f"W{n},{st['w'] % 251}")
+            st["w"] += n
+
+        hist = rng.choice(["plain", "rto", "rto", "rto_partial", "rto_chain", "sack", "probe_fail"])
+        if hist == "probe_fail":
+            ops.insert(0, "L%d" % rng.choice([600, 1000, 1200]))
+        write(rng.choice([528, 1056, 1584, 3000]))
+        ops.append("P")
+        if hist in ("rto", "rto_partial", "rto_chain"):
+            for _ in range(1 if hist != "rto_chain" else rng.range(2, 3)):
+                st["now"] += rng.choice([1_000_000_000, 3_000_000_000, 8_000_000_000])
+                ops += [f"T{st['now']}", "P"]
+            if hist == "rto_partial":
+                ops += [ack(isn + 1), "P"]
+        elif hist == "sack":
+            ops += [ack(isn, "0100000000000000") for _ in range(3)] + ["P"]
+        elif hist == "probe_fail":
+            for _ in range(rng.range(1, 3)):
+                st["now"] += 1_000_000_000
+                ops += [f"T{st['now']}", "P"]
+        cases.append((cfg, ops, st, rng))
+    # read seq_nr back from the implementation, acknowledge everything numbered so far
+    lines = ["vsock " + " ".join(str(x) for x in cfg) + " " + " ".join(ops) for cfg, ops, _, _ in cases]
+    outs = L.run_sharded(L.HARNESS, lines)
+    res = []
+    for (cfg, ops, st, rng), out in zip(cases, outs):
+        polls = [t for t in out.split() if t.startswith("P:")]
+        if not polls or polls[-1].count("/") < 4:
+            continue
+        seq_nr = int(polls[-1].split("/")[4].split("|")[0].split(",")[3])
+        st["ts"] += 1
+        ops += [f"M2,{cfg[12]},{(seq_nr - 1) % 65536},1048576,{st['ts']},0,0,-", "P"]
+        ev = rng.choice(["H", "H", "DW", "W100,0", "W1000,0"])
+        if ev == "DW" and rng.below(2):
+            ops.append("DR")
+        ops += [ev, "P"]
+        for _ in range(rng.range(0, 2)):
+            st["now"] += rng.choice([40_000_000, 1_000_000_000])
+            ops += [f"T{st['now']}", "P"]
+        res.append("vsock " + " ".join(str(x) for x in cfg) + " " + " ".join(ops))
+    return res
+
+
 def gen_wake(rng, tier):
     n = 400 if tier == "quick" else 8000
-    return [gen_wake_case(rng.fork("w%d" % i)) for i in range(n)]
+    m = 120 if tier == "quick" else 2000
+    return [gen_wake_case(rng.fork("w%d" % i)) for i in range(n)] + \
+        gen_idle_after_history([rng.fork("h%d" % i) for i in range(m)])
 
 
 def gen(rng, tier):
